@@ -135,8 +135,10 @@ EachSampleOnce ==
          /\ cat # <<>> => \A i \in 1..N : Cardinality({k \in 1..Len(cat[1].idx) : cat[1].idx[k] = i}) = 1
 
 \* streaming accumulators of every rank are the two-pass statistics of what the rank has processed
+\* (a rank's accumulator is frozen once it has posted its contribution: checked while it still updates,
+\* which includes the state right before its Gather)
 AccIsTwoPass ==
-    Part = "var" => \A r \in Ranks :
+    Part = "var" => \A r \in Ranks : sent[r] = <<>> =>
         LET p == Prefix(r) IN
         /\ acc[r].count = pc[r]
         /\ acc[r].wcount = SumW(p)
@@ -145,16 +147,19 @@ AccIsTwoPass ==
                         /\ acc[r].M2 = TwoPassM2(p)
 
 Finished(r) == res[r] # <<>>
+AnyFinished == \E r \in Ranks : Finished(r)
 MeanIsWeightedMean ==
-    Part = "var" => \A r \in Ranks : (Finished(r) /\ N >= 2) => res[r][1].mean = Num(WMean(smp))
+    (Part = "var" /\ AnyFinished /\ N >= 2) =>
+        LET m == Num(WMean(smp)) IN \A r \in Ranks : Finished(r) => res[r][1].mean = m
 VarianceIsTwoPass ==
-    Part = "var" => \A r \in Ranks : Finished(r) =>
-        IF N >= 2 THEN res[r][1].var = Num(TwoPassVar(smp)) ELSE IsNaNValue(res[r][1].var)
+    (Part = "var" /\ AnyFinished) =>
+        IF N >= 2 THEN LET v == Num(TwoPassVar(smp)) IN \A r \in Ranks : Finished(r) => res[r][1].var = v
+        ELSE \A r \in Ranks : Finished(r) => IsNaNValue(res[r][1].var)
 \* whatever the number of ranks, the partition and the interleaving: the single-process result
 ScheduleIndependent ==
-    Part = "var" => \A r \in Ranks : Finished(r) =>
-        /\ SameX(res[r][1].var, SerialRes(smp).var)
-        /\ SameX(res[r][1].mean, SerialRes(smp).mean)
+    (Part = "var" /\ AnyFinished) =>
+        LET one == SerialRes(smp) IN
+        \A r \in Ranks : Finished(r) => SameX(res[r][1].var, one.var) /\ SameX(res[r][1].mean, one.mean)
 
 TraceInSampleOrder ==
     Part = "trace" => \A r \in Ranks : out[r] # <<>> =>
@@ -165,6 +170,8 @@ SummariesEqualSerial ==
     Part = "trace" => \A r \in Ranks : out[r] # <<>> =>
         /\ PairBagEq(out[r][1].tr, out[r][1].wt, [i \in 1..N |-> smp[i].v], [i \in 1..N |-> smp[i].w])
         /\ SumW(smp) # RZero => WMeanSeq(out[r][1].tr, out[r][1].wt) = WMean(smp)
+\* lemma used by Trace_ParallelStats: the moment form of the two-pass variance
+DirectVarLemma == (Part = "var" /\ N >= 1) => DirectVar(smp) = TwoPassVar(smp)
 \* every rank that reaches the end produces an output (no rank is stuck on an exception)
 NoError ==
     Part = "var" => \A r \in Ranks : Finished(r) => res[r][1].var # ErrV
